@@ -24,11 +24,12 @@ def _record(ctx, binp, outdir, **kw):
     return files, info
 
 
-def _gen_hists(ctx, n, length, seed, condmix=False):
+def _gen_hists(ctx, n, length, seed, condmix=False, clientmix=False):
     """F1 (iii): TLC simulation prints request histories as JSON."""
     cfgp = os.path.join(ctx._speccopy(), "DavSim_run.cfg")
     open(cfgp, "w").write(open(os.path.join(vlib.SPEC, "DavSim.cfg")).read().replace("HistLen = 16", "HistLen = %d" % length)
-                          .replace("CondMix = FALSE", "CondMix = %s" % ("TRUE" if condmix else "FALSE")))
+                          .replace("CondMix = FALSE", "CondMix = %s" % ("TRUE" if condmix else "FALSE"))
+                          .replace("ClientMix = FALSE", "ClientMix = %s" % ("TRUE" if clientmix else "FALSE")))
     out, st = ctx.tlc("DavSim", "DavSim_run", workers=1, args=["-simulate", "num=%d" % n, "-depth", str(length + 3), "-seed", str(seed)], timeout=1200)
     hs = ctx.emitted(out, "HIST")
     if len(hs) < n // 2:
